@@ -1,7 +1,6 @@
 /-
 C07 part 6: **the std/deflate decoder against the RFC 1951 specification decoder** — the former open statement
-`wuffs_deflate_refines_spec`, now proved for stored and fixed-Huffman blocks without any assumption and for
-dynamic-Huffman blocks relative to ONE precisely stated obligation (`DynRefines`).
+`wuffs_deflate_refines_spec`, now proved for stored, fixed-Huffman AND dynamic-Huffman blocks.
 
 What is related: `StdDeflate.inflate` — the mirror (Model/StdDeflate.lean) of `decoder.decode_blocks`,
 `decode_uncompressed`, `init_fixed_huffman`, `init_dynamic_huffman`, `init_huff` and `decode_huffman_slow`
@@ -16,31 +15,40 @@ Direction: completeness on valid data, which is what property C07 asks — if th
 `out` using `n` bytes, the Wuffs decoder returns `ok`, exactly `out`, and has consumed exactly `n` bytes.
 
 Proved for ALL byte strings:
-  * `wuffs_deflate_stored_fixed`    every stream whose blocks are stored or fixed-Huffman blocks;
-  * `wuffs_deflate_refines_spec_partial`   every stream, given `DynRefines s`;
+  * `wuffs_deflate_refines_spec`    every stream whose dynamic headers std/deflate accepts (`DynOK s`, a condition on
+    the SPECIFICATION's view of the stream only: at every dynamic block the specification reaches, the code-length
+    code and the literal/length code are complete (Kraft sum exactly 1), symbol 256 has a code, and the distance
+    code is complete or the one-code code).  The condition cannot be dropped: the specification follows Go's
+    compress/flate and ALSO accepts a one-code code-length or literal/length code, an empty distance code and a
+    literal/length code without an end-of-block symbol, which std/deflate rejects (`#bad Huffman code
+    (under-subscribed)`, `#no Huffman codes`, `#missing end-of-block code`) — see `wuffs_rejects_one_code_litlen`;
+    reference encoders (zlib, Go) never emit those;
+  * `wuffs_dynamic_header_refines_spec : DynOK s → DynRefines s`   the former OPEN obligation: `init_dynamic_huffman`
+    (HLIT/HDIST/HCLEN, CODE_ORDER, the run-length codes 16/17/18 with their bounds checks) reads the code lengths
+    `Spec.dynamicHeader` reads, stops at the same bit, and the three `init_huff` calls succeed with tables that are
+    prefix-replicated and agree with `Spec.mkHuff` of those lengths on all 2^15 windows;
+  * `wuffs_init_huff_correct : InitHuffSpec`   `init_huff` itself, for every complete code-length set (and the
+    degenerate one-code distance set): counting, the over/under-subscription check, offsets, the counting sort,
+    min/max code length, canonical code assignment, 9-bit reversal through REVERSE8, first-level replication,
+    redirect entries, second-level table sizing (`huffSecondBits`) and the HUFFS_TABLE_SIZE = 1024 bound — none of
+    the `#internal error` arms can fire, and a lookup in the resulting two-level table = canonical decoding;
+  * `wuffs_deflate_stored_fixed`    every stream whose blocks are stored or fixed-Huffman blocks (no condition);
+  * `wuffs_deflate_refines_spec_partial`   every stream, given `DynRefines s` (kept: the block-loop theorem);
   * underneath (Proof/StdDeflate*.lean): the bit accumulator = the RFC's bit numbering; the two-level table lookup
     with "retry with more bits" = canonical-code decoding, for every prefix-replicated table that agrees with the
     code on 15-bit windows (`lookupLoop_level`, `lookup_two_level`, `decode_entry`); LCODE/DCODE_MAGIC_NUMBERS
     and the `+3` / `+253 & 0xFF` / `& 0x7FFF` arithmetic = the length and distance tables of RFC 1951 §3.2.5
     (`len_facts`, `dist_facts`); the block loop of `decode_huffman_slow` = `Spec.huffBlock` (`slowLoop_spec`);
-    `decode_uncompressed` = `Spec.storedBlock`; the tables `init_huff` builds for the fixed code lengths are
-    prefix-replicated and agree with the fixed codes of §3.2.6, whatever was in `huffs` before
-    (`initFixedHuffman_spec`, by kernel evaluation of the mirror of `init_huff`).
+    `decode_uncompressed` = `Spec.storedBlock`; the fixed tables by kernel evaluation (`initFixedHuffman_spec`);
+    the dynamic part in Proof/StdDeflateDyn*.lean (module statements in Proof/StdDeflateDynDefs.lean):
+    `specSideSpec_holds` (the specification's decoder on a complete code = canonical codes in (length, symbol)
+    order), `countsSpec_holds`, `countSpec_holds`, `symbolsSpec_holds`, `fillSpec_holds`, `deriveSpec_holds`,
+    `valSpec_holds`, `initHuffSingleSpec_holds`, `readLensSpec_holds`, `dynRefines_of_initHuff`.
 
--- OPEN: theorem wuffs_dynamic_header_refines_spec : ∀ s, DynRefines s
---   (for streams whose dynamic headers use complete codes or the one-code distance table: the mirror of
---   `init_dynamic_huffman` reads the same code lengths as `Spec.dynamicHeader` and `init_huff` builds
---   prefix-replicated tables that agree with `Spec.mkHuff` of those lengths).  Needs the analysis of the
---   table-filling loop of `init_huff` (canonical code assignment, bit reversal, second-level sizing).  Not true
---   for every `s`: the specification follows Go and accepts a one-symbol literal/length code and a dynamic block
---   without distance codes, which std/deflate rejects (`#bad Huffman code (under-subscribed)`, `#no Huffman
---   codes`); reference encoders (Go, zlib) never emit those.  Evidence instead: the driver op `wdyn deflate`
---   evaluates exactly the conclusion of `DynRefines` (same end bit, `tblOKb`, `agreeb` on all 2^15 windows for
---   both tables) at every dynamic block of every sampled stream.
 -- OPEN: the converse direction (whatever std/deflate accepts, the specification decodes to the same bytes) and
---   the equivalence of `decode_huffman_fast*` with the slow loop.
+--   the equivalence of `decode_huffman_fast*` with the slow loop; suspension/resumption across `transform_io` calls.
 -/
-import WuffsVerif.Proof.StdDeflateStream
+import WuffsVerif.Proof.StdDeflateDynFinal
 
 namespace WuffsVerif.Props.C07
 open WuffsVerif.StdDeflate
@@ -48,7 +56,7 @@ open WuffsVerif.Flate.Spec (bitAt bitsLE avail blocks Status Result)
 
 /-- the freshly initialised decoder at bit 0 -/
 theorem deflate_init_inv (s : Bytes) : StInv s {} 0 :=
-  ⟨⟨by simp [bitsLE], by simp, by simp⟩, by simp, by simp, by simp⟩
+  ⟨⟨by simp [bitsLE], by simp, by simp⟩, by simp, by simp, by simp, by simp⟩
 
 /-- **wuffs_deflate_refines_spec_partial.**  For every byte string `s`: if the RFC 1951 specification decoder
     accepts `s` with output `out`, using `n` bytes, and the dynamic-header obligation holds for `s`, then the
@@ -89,6 +97,32 @@ theorem wuffs_deflate_stored_fixed (s out : Bytes) (n : Nat) (hno : NoDynamic s)
     (h : Flate.Spec.inflate s = some (out, n)) : StdDeflate.inflate s = .ok (out, n) :=
   wuffs_deflate_refines_spec_partial s out n hno.dynRefines h
 
+/-- **wuffs_init_huff_correct.**  `init_huff`, for each of the three calls `init_dynamic_huffman` makes
+    (`CallKind`), on every code-length set the specification accepts as a complete code (Kraft sum exactly 1), and
+    on the one-code distance set: returns `ok` (no over/under-subscription status, none of the `#internal error`
+    arms, second-level tables within HUFFS_TABLE_SIZE) and leaves a table that is prefix-replicated (`TblOK`) and
+    agrees with the canonical code on all 2^15 windows (`Agree`), whatever `huffs[which]` held before. -/
+theorem wuffs_init_huff_correct : InitHuffSpec := initHuffSpec_holds
+
+/-- **wuffs_dynamic_header_refines_spec** (the former open obligation).  For every byte string `s` whose dynamic
+    headers std/deflate accepts (`DynOK s`): at every dynamic block the specification reaches, the mirror of
+    `init_dynamic_huffman` + `init_huff` accepts the header the specification accepts, stops at the same bit and
+    builds tables that implement the specification's two canonical codes. -/
+theorem wuffs_dynamic_header_refines_spec (s : Bytes) (hok : DynOK s) : DynRefines s := dynRefines_holds s hok
+
+/-- **wuffs_deflate_refines_spec.**  For every byte string `s` whose dynamic headers std/deflate accepts (`DynOK s`,
+    a condition on the specification's parse of `s` only; it holds trivially for streams without dynamic blocks):
+    if the RFC 1951 specification decoder accepts `s` with output `out`, using `n` bytes, then the mirror of
+    std/deflate returns `ok` with exactly `out` and has consumed exactly `n` source bytes. -/
+theorem wuffs_deflate_refines_spec (s out : Bytes) (n : Nat) (hok : DynOK s)
+    (h : Flate.Spec.inflate s = some (out, n)) : StdDeflate.inflate s = .ok (out, n) :=
+  wuffs_deflate_refines_spec_partial s out n (dynRefines_holds s hok) h
+
+/-- streams without dynamic blocks satisfy `DynOK` -/
+theorem NoDynamic.dynOK {s : Bytes} (h : NoDynamic s) : DynOK s := by
+  intro p out hr ha ht
+  exact absurd ht (h p out hr ha)
+
 /-- a one-block stream never reaches a second block boundary -/
 theorem reach_final_first (s : Bytes) (hf : bitAt s 0 = 1) : ∀ p out, Reach s p out → p = 0 := by
   intro p out hr
@@ -115,5 +149,37 @@ example (h : Flate.Spec.inflate #[0x4b, 0x04, 0x00] = some (#[0x61], 3)) :
 /-- non-vacuity of the stored case, both sides evaluated: a final stored block holding "A" -/
 example : Flate.Spec.inflate #[0x01, 0x01, 0x00, 0xfe, 0xff, 0x41] = some (#[0x41], 6) := by decide +kernel
 example : (StdDeflate.inflate #[0x01, 0x01, 0x00, 0xfe, 0xff, 0x41]).toOption = some (#[0x41], 6) := by decide +kernel
+
+/-- a final dynamic-Huffman block (zlib, Z_HUFFMAN_ONLY, 120 bytes of text over `a`…`g`) -/
+def dynSample : Bytes :=
+  #[0x05, 0xc1, 0x01, 0x01, 0xc0, 0x40, 0x10, 0xc3, 0x20, 0xad, 0xa4, 0xb7, 0xf7, 0x2f, 0x61, 0x40, 0x23, 0x26, 0x14,
+    0xca, 0xd8, 0x66, 0x0b, 0x91, 0x4c, 0xc7, 0x36, 0xf4, 0x99, 0xe9, 0x4a, 0x0b, 0x8e, 0x29, 0x2f, 0xa3, 0x50, 0x4e,
+    0xe3, 0xac, 0x85, 0xee, 0x78, 0x67, 0x3f]
+
+/-- non-vacuity of `DynOK` on a real dynamic block: the header check, evaluated -/
+theorem dynSample_ok : DynOK dynSample := dynOK_of_final dynSample (by decide) (by decide +kernel)
+
+/-- the theorem applied to that stream -/
+example (out : Bytes) (n : Nat) (h : Flate.Spec.inflate dynSample = some (out, n)) :
+    StdDeflate.inflate dynSample = .ok (out, n) :=
+  wuffs_deflate_refines_spec _ _ _ dynSample_ok h
+
+/-- a final dynamic block whose literal/length code consists of ONE code (symbol 256, length 1) and whose distance
+    code is empty: 256 zero lengths (two code-18 runs), then 1, then 0; data = the end-of-block code -/
+def oneCodeSample : Bytes := #[0x05, 0xc0, 0x81, 0x08, 0x00, 0x00, 0x00, 0x00, 0x20, 0x7f, 0xeb, 0x03]
+
+/-- **The condition `DynOK` cannot be dropped**: the specification (which follows Go's compress/flate in accepting
+    a one-code Huffman code) decodes `oneCodeSample` to the empty output, while std/deflate rejects it
+    (`#bad Huffman code (under-subscribed)`); both sides evaluated. -/
+theorem wuffs_rejects_one_code_litlen :
+    Flate.Spec.inflate oneCodeSample = some (#[], 12) ∧ (StdDeflate.inflate oneCodeSample).toOption = none :=
+  ⟨by decide +kernel, by decide +kernel⟩
+
+theorem dynOK_is_needed : ¬ DynOK oneCodeSample := by
+  intro hok
+  have h := wuffs_deflate_refines_spec _ _ _ hok wuffs_rejects_one_code_litlen.1
+  have h2 := wuffs_rejects_one_code_litlen.2
+  rw [h] at h2
+  simp [Except.toOption] at h2
 
 end WuffsVerif.Props.C07
